@@ -26,7 +26,7 @@ enum { NE = 3, NG = 2, NL = 3, NS = 2, MAXK = 8, MAXACT = 8, MAXLOG = 1 << 16 };
 
 struct Act
 {
-  char kind; // c d m L E
+  char kind; // c d m L E n w
   int e, g, l, s;
 };
 
@@ -108,6 +108,7 @@ static void doAct(const Act& a)
     {
       Li* p = li[a.l];
       li[a.l] = 0;
+      liAddr[a.l] = 0;
       delete p;
     }
     break;
@@ -117,6 +118,25 @@ static void doAct(const Act& a)
       Em* p = em[a.e];
       em[a.e] = 0;
       delete p;
+    }
+    break;
+  case 'n':
+    if(!li[a.l])
+    {
+      li[a.l] = new Li(a.l);
+      liAddr[a.l] = static_cast<Callback::Listener*>(li[a.l]);
+    }
+    break;
+  case 'w':
+    if(!em[a.e])
+    {
+      em[a.e] = new Em(a.e);
+      emAddr[a.e] = static_cast<Callback::Emitter*>(em[a.e]);
+      // the allocator may hand out the address of a destroyed emitter again: that variable's
+      // remembered address no longer identifies the old object
+      for(int k = 0; k < NE; ++k)
+        if(k != a.e && !em[k] && emAddr[k] == emAddr[a.e])
+          emAddr[k] = 0;
     }
     break;
   }
@@ -231,7 +251,7 @@ static void observe()
     for(int e = 0; e < NE; ++e)
     {
       printf("%se%d=", e ? " " : "", e);
-      Map<Callback::Emitter*, List<Callback::Listener::Signal> >::Iterator it = li[l]->slotData.find((Callback::Emitter*)emAddr[e]);
+      Map<Callback::Emitter*, List<Callback::Listener::Signal> >::Iterator it = emAddr[e] ? li[l]->slotData.find((Callback::Emitter*)emAddr[e]) : li[l]->slotData.end();
       if(it == li[l]->slotData.end() || it->isEmpty())
       {
         printf("-");
@@ -268,6 +288,10 @@ static bool parseAction(const char* t, Act& a)
   if(t[0] == 'L' && n == 2)
     return digit(t[1], NL, a.l);
   if(t[0] == 'E' && n == 2)
+    return digit(t[1], NE, a.e);
+  if(t[0] == 'n' && n == 2)
+    return digit(t[1], NL, a.l);
+  if(t[0] == 'w' && n == 2)
     return digit(t[1], NE, a.e);
   return false;
 }
@@ -364,6 +388,16 @@ int main()
     else if(hxIs(l, "dele", 1))
     {
       a.kind = 'E';
+      ok = numTok(l, 1, NE, a.e);
+    }
+    else if(hxIs(l, "newl", 1))
+    {
+      a.kind = 'n';
+      ok = numTok(l, 1, NL, a.l);
+    }
+    else if(hxIs(l, "newe", 1))
+    {
+      a.kind = 'w';
       ok = numTok(l, 1, NE, a.e);
     }
     if(!ok)
